@@ -437,6 +437,22 @@ example : (cylEx.construct.read 3 .cellVolumes).2.cacheKeys = ["cell_volume_data
 example : (cylEx.construct.read 3 .cellVolumes).1.toArr = [15/4, 15/4, 15/4, 21/4, 21/4, 21/4] := by
   decide +kernel
 
+/-- `gridEq_axes` on a non-trivial pair: `UnitGrid([2, 3])` equals `CartesianGrid([(0, 2), (0, 3)], [2, 3])`, both
+name their axes `x, y` -/
+example : gridEq (GridObj.unit [2, 3] [false, true] : GridObj ℚ) (.cartesian [(0, 2), (0, 3)] [2, 3] [false, true]) = true ∧
+    (GridObj.unit [2, 3] [false, true] : GridObj ℚ).axes = ["x", "y"] ∧
+    (GridObj.cartesian [((0 : ℚ), 2), (0, 3)] [2, 3] [false, true]).axes = ["x", "y"] := by
+  refine ⟨?_, by decide +kernel, by decide +kernel⟩
+  simp [gridEq, subclassOf, GridObj.cls, GridObj.shape, GridObj.axesBounds, GridObj.periodic, eqPairs]
+
+/-- the hypotheses of `prodL_volData` / `multiIdx_mem` on the cylinder: every multi-index of the shape `[2, 3]` is
+in range, and the shape hypothesis of `cellVolumes_fresh_eq_C12` holds -/
+example : (multiIdx [2, 3]).length = 6 ∧ [1, 2] ∈ multiIdx [2, 3] ∧
+    ((cylEx.toGrid.axisVolsAll 3).map (·.n)) = cylEx.shape := by decide +kernel
+
+/-- a Cartesian grid with five axes is named `a, b, c, d, e` -/
+example : (GridObj.unit [1, 1, 1, 1, 1] [false, false, false, false, false] : GridObj ℚ).axes
+    = ["a", "b", "c", "d", "e"] := by decide +kernel
 /-- what `Coherent` excludes: an instance whose stored `_axes_coords` was overwritten is NOT coherent;
 `copy()` (a new construction) repairs it, pickle hands the overwritten attribute over -/
 theorem pickle_keeps_stale_attribute :
